@@ -6,6 +6,7 @@ import (
 	"sort"
 	"time"
 
+	ethcrypto "github.com/ethereum/go-ethereum/crypto"
 	pubsub "github.com/libp2p/go-libp2p-pubsub"
 	"google.golang.org/protobuf/proto"
 	anypb "google.golang.org/protobuf/types/known/anypb"
@@ -13,8 +14,6 @@ import (
 	"github.com/shutter-network/shutter/shlib/shcrypto"
 
 	"github.com/shutter-network/rolling-shutter/rolling-shutter/keyper/database"
-	"github.com/shutter-network/rolling-shutter/rolling-shutter/keyperimpl/gnosis/gnosisssztypes"
-	"github.com/shutter-network/rolling-shutter/rolling-shutter/keyperimpl/shutterservice/serviceztypes"
 	"github.com/shutter-network/rolling-shutter/rolling-shutter/medley/identitypreimage"
 	"github.com/shutter-network/rolling-shutter/rolling-shutter/medley/testkeygen"
 	"github.com/shutter-network/rolling-shutter/rolling-shutter/p2pmsg"
@@ -470,22 +469,18 @@ func (cw *c04World) attachFlavourExtra(c *simkit.Chooser, sh *p2pmsg.DecryptionK
 	w := cw.w
 	slot, txp := uint64(7), uint64(c.Intn(3, "extra-txpointer"))
 	sign := func(k *simtm.Key, inst, eon uint64, idl [][]byte) ([]byte, error) {
-		var pre []identitypreimage.IdentityPreimage
-		for _, id := range idl {
-			pre = append(pre, identitypreimage.IdentityPreimage(id))
-		}
+		// message root from the harness's own SSZ implementation (sim/ref/sszsig.go)
+		var root [32]byte
+		var ok bool
 		if w.fl == flGnosis {
-			d, err := gnosisssztypes.NewSlotDecryptionSignatureData(inst, eon, slot, txp, pre)
-			if err != nil {
-				return nil, err
-			}
-			return d.ComputeSignature(k.Priv)
+			root, ok = ref.GnosisSigRoot(inst, eon, slot, txp, idl)
+		} else {
+			root, ok = ref.ServiceSigRoot(inst, eon, idl)
 		}
-		d, err := serviceztypes.NewDecryptionSignatureData(inst, eon, pre)
-		if err != nil {
-			return nil, err
+		if !ok {
+			return nil, fmt.Errorf("identities do not fit the signed container")
 		}
-		return d.ComputeSignature(k.Priv)
+		return ethcrypto.Sign(root[:], k.Priv)
 	}
 	if sh != nil {
 		var ids [][]byte
